@@ -1692,3 +1692,73 @@ func adjustedLineSource(v ssa.Value) ssa.CallInstruction {
 	}
 	return nil
 }
+
+// ---------------------------------------------------------------------------
+// C11: the use test relies on what the parser resolved
+
+// objectResolutionOn: usesNameAsTopLevel counts `name.X` as a reference to the
+// package only when the parser did not resolve `name` to a declaration in the
+// file (Ident.Obj == nil). That is meaningful only if the target files are
+// parsed WITH object resolution: with parser.SkipObjectResolution every
+// identifier has Obj == nil, a local variable that shadows the package name
+// counts as a use, and a '-' import whose real uses were all rewritten away
+// is kept. Two sites that each look fine alone; the rule ties them together.
+func objectResolutionOn(r *an.Run, rule string) {
+	r.Rule(rule)
+	// does any code outside the pattern side read Ident.Obj?
+	reads := 0
+	for _, f := range r.P.ModuleFuncs() {
+		rel := strings.TrimPrefix(strings.TrimPrefix(an.FuncPkgPath(f), an.Module), "/")
+		if strings.HasPrefix(rel, "tools") || strings.HasPrefix(rel, "internal/pgo") || rel == "internal/goast" {
+			continue
+		}
+		for _, b := range f.Blocks {
+			for _, in := range b.Instrs {
+				if fa, ok := in.(*ssa.FieldAddr); ok && fieldNameOf(fa) == "Obj" && an.IsNamed(fa.X.Type().Underlying().(*types.Pointer).Elem(), "go/ast", "Ident") {
+					reads++
+				}
+			}
+		}
+	}
+	r.Count("reads of Ident.Obj", reads)
+	if reads == 0 {
+		r.Pass("no-reads", 0, "nothing reads Ident.Obj: the parser mode does not matter for the use test")
+		return
+	}
+	skip := int64(-1)
+	if pk := r.P.ByP["go/parser"]; pk != nil {
+		if c, ok := pk.Types.Scope().Lookup("SkipObjectResolution").(*types.Const); ok {
+			skip, _ = an.ConstIntOf(c.Val())
+		}
+	}
+	if skip < 0 {
+		r.Undecided("parser.SkipObjectResolution", 0, "constant go/parser.SkipObjectResolution not found")
+		return
+	}
+	n := 0
+	for _, f := range r.P.ModuleFuncs() {
+		rel := strings.TrimPrefix(strings.TrimPrefix(an.FuncPkgPath(f), an.Module), "/")
+		if strings.HasPrefix(rel, "tools") || strings.HasPrefix(rel, "internal/pgo") {
+			continue
+		}
+		for _, c := range an.CallsTo(f, parserParse) {
+			a := c.Common().Args
+			mode, isc := an.ConstInt(a[len(a)-1])
+			// a parse whose result is discarded (validation only) cannot feed the use test
+			if call, ok := c.(*ssa.Call); ok {
+				if ex := an.ExtractOf(call, 0); len(ex) == 0 || nonDebugRefs(ex[0]) == 0 {
+					continue
+				}
+			}
+			n++
+			key := short(f) + "|parse-mode"
+			if !isc {
+				r.Undecided(key, c.Pos(), "the parser mode of %s is not a constant", short(f))
+				continue
+			}
+			r.Check(mode&skip == 0, key, c.Pos(), "%s parses target files with object resolution (mode %d): the import clean-up tells a package reference from a shadowing local by Ident.Obj", short(f), mode)
+		}
+	}
+	r.Count("target-file parses", n)
+	r.Min("target-file parses", 2)
+}
